@@ -127,7 +127,7 @@ fn udp_accept_all_paths() {
     }
     let sock = UdpSocket(0);
     let q = Sender(0, std::marker::PhantomData);
-    let ret = kani::block_on(l.udp_accept(&Arc(&sock), &Arc(&st), &q));
+    let ret = run_ready(l.udp_accept(&Arc(&sock), &Arc(&st), &q));
     unsafe {
         let expect = Frame { addr: Some(TargetAddress(7)), payload: RECV_PAYLOAD };
         if ret.is_ok() {
@@ -155,4 +155,10 @@ fn udp_accept_all_paths() {
     }
 }
 
+/// every stub future is immediately ready, so the task completes within one poll (cheaper than kani::block_on's loop)
+pub fn run_ready<F: std::future::Future>(f: F) -> F::Output {
+    let mut f = std::pin::pin!(f);
+    let mut cx = std::task::Context::from_waker(std::task::Waker::noop());
+    match f.as_mut().poll(&mut cx) { std::task::Poll::Ready(v) => v, std::task::Poll::Pending => panic!("stub future pending") }
+}
 fn main() {}
